@@ -23,6 +23,51 @@ class Violation(Exception):
         self.ops = ops
 
 
+class KnownStop(Exception):
+    """Raised after a violation that matches an open known finding: the example stops being
+    judged (its state is no longer meaningful) but the worker's search goes on."""
+
+
+_FINDINGS = None
+
+
+def open_findings():
+    global _FINDINGS
+    if _FINDINGS is None:
+        _FINDINGS = core.load_known_findings()
+    return _FINDINGS
+
+
+class BaseExec:
+    """Applies recorded operations; subclasses implement _apply(op) and call self.violation()."""
+
+    PROP = "C00"
+
+    def __init__(self):
+        self.ops = []
+        self.dead = False
+
+    def violation(self, signature, detail):
+        if core.match_open_finding(open_findings(), self.PROP, signature) is not None:
+            if signature not in REC.known:
+                REC.known[signature] = {"signature": signature, "detail": core.to_jsonable(detail), "ops": core.to_jsonable(list(self.ops)), "count": 0}
+            REC.known[signature]["count"] += 1
+            self.dead = True
+            raise KnownStop(signature)
+        raise Violation(signature, detail, list(self.ops))
+
+    def apply(self, op):
+        if self.dead:
+            return
+        self.ops.append(op)
+        REC.ops[op[0]] += 1
+        REC.steps += 1
+        try:
+            self._apply(op)
+        except KnownStop:
+            pass
+
+
 class Recorder:
     """Per-process coverage counters updated by the machines."""
 
@@ -35,6 +80,7 @@ class Recorder:
         self.faults = Counter()
         self.sample = None
         self.sample_kinds = 0
+        self.known = {}
 
     def end_example(self, ops):
         self.examples += 1
@@ -86,6 +132,7 @@ def hyp_worker(task):
         "faults": dict(REC.faults),
         "sample": REC.sample,
         "viol": viol,
+        "known": list(REC.known.values()),
         "wall": time.time() - t0,
     }
 
@@ -114,6 +161,9 @@ def summarise(results):
             samples.append(r["sample"])
         if r["viol"]:
             viol.setdefault(r["viol"]["signature"], []).append(r["viol"])
+        for kf in r.get("known", []):
+            for _ in range(1):
+                viol.setdefault(kf["signature"], []).append({"signature": kf["signature"], "detail": kf["detail"], "ops": kf["ops"], "seed": r["seed"]})
     return {"examples": ex, "steps": st, "ops": dict(ops), "judged": dict(judged), "faults_fired": dict(faults), "distinct_op_sequences": len(shapes), "samples": samples}, viol
 
 
